@@ -224,7 +224,7 @@ def einsum_worker(inst):
             exp[oidx] = C.fold(addn, terms)
         return [(data, exp)]
     tier = os.environ.get("VERIF_TIER", "quick")
-    return decide(str(inst), ob, timeout_ms=5000 if tier == "quick" else 30000, twin=True)
+    return decide(str(inst), ob, timeout_ms=5000 if tier == "quick" else 10000, twin=True)
 
 
 def worker(inst):
@@ -235,7 +235,7 @@ def worker(inst):
     from harness.core import check_prog, relational_oracle
     from harness.schedules import SCHEDULES, immediate
     _, sched, sr, prog, rel, twin = inst
-    tmo = 4000 if os.environ.get("VERIF_TIER", "quick") == "quick" else 30000
+    tmo = 4000 if os.environ.get("VERIF_TIER", "quick") == "quick" else 8000
     return check_prog(prog, SCHEDULES[sched], twin=twin, label="%s|%s/%s" % (sched, sr[0], sr[1]),
                       oracle_fn=relational_oracle(immediate) if rel else None,
                       int_range_check=False, check_dtype=False, timeout_ms=tmo)
@@ -247,7 +247,7 @@ def instances(tier, seed):
     n = 0
     for sr in SEMIRINGS:
         heavy = sr[1] == "mul" and sr[0] in ("max", "min")      # nonlinear max-of-products: keep the queries small
-        progs = gen_sumproducts(rng, (25 if heavy else 45) if tier == "quick" else (250 if heavy else 500), sr[0], sr[1], sr[2],
+        progs = gen_sumproducts(rng, (25 if heavy else 45) if tier == "quick" else (100 if heavy else 260), sr[0], sr[1], sr[2],
                                 (3 if heavy else 5) if tier == "quick" else (4 if heavy else 8))
         for p in progs:
             for s in (SCHEDS if tier != "quick" else rng.sample(SCHEDS, 2)):
@@ -257,18 +257,18 @@ def instances(tier, seed):
                 out.append(("prog", "optimizer", sr, p, True, False))     # relational: optimized == naive eager
     for sr in SEMIRINGS:
         heavy = sr[1] == "mul" and sr[0] in ("max", "min")
-        for p in gen_distributive(rng, (10 if heavy else 25) if tier == "quick" else (60 if heavy else 250), sr[0], sr[1], sr[2]):
+        for p in gen_distributive(rng, (10 if heavy else 25) if tier == "quick" else (30 if heavy else 130), sr[0], sr[1], sr[2]):
             for sch in ("optimizer", "normalize>optimizer", "lazy>normalize>optimizer", "unfold", "lazy_normalize_eager"):
                 if tier == "quick" and rng.random() < 0.4:
                     continue
                 n += 1
                 out.append(("prog", sch, sr, p, False, False))
-    for p in gen_mixed(rng, 40 if tier == "quick" else 400):
+    for p in gen_mixed(rng, 40 if tier == "quick" else 220):
         for sch in ("optimizer", "unfold", "normalize", "lazy_normalize_eager", "normalize>optimizer"):
             if tier == "quick" and rng.random() < 0.4:
                 continue
             out.append(("prog", sch, ("mixed", "mixed", "nonneg"), p, False, False))
-    for op, car, p in gen_sameop(rng, 40 if tier == "quick" else 400):
+    for op, car, p in gen_sameop(rng, 40 if tier == "quick" else 220):
         for sch in (SCHEDS + ["immediate"] if tier != "quick" else ["normalize", "lazy_normalize_eager", "immediate"]):
             out.append(("prog", sch, (op, op, car), p, False, False))
     for _, eq in einsum_instances(tier):
